@@ -389,6 +389,115 @@ def check_effects(ctx: Check, tree: Tree, reach: dict[str, FuncInfo]) -> None:
     ctx.ok("R-EFFECT", tree.loc(formulate.node), f"{n_writes} write sites in {len(reach)} functions reachable from formulate: locals, constructor state or reset scratch state only")
 
 
+# --------------------------------------------------------------------------- R-SHARED
+
+
+def check_shared_class_state(ctx: Check, tree: Tree) -> None:
+    """A class-level attribute bound to a mutable container is ONE object shared by all
+    instances (and all builders).  It must not be mutated through ``self``/``cls`` unless
+    every instance re-binds the attribute to a fresh object first."""
+    n_classes = 0
+    n_attrs = 0
+    for q, cls in sorted(tree.classes.items()):
+        if not q.startswith("ampform"):
+            continue
+        n_classes += 1
+        is_attrs = any(t in {"attrs.define", "attrs.frozen", "attr.s", "attrs.mutable", "attr.define", "attr.frozen", "dataclasses.dataclass"} for t, _ in cls.decorators)
+        shared: dict[str, ast.AST] = {}
+        for st in cls.node.body:
+            target, value = None, None
+            if isinstance(st, ast.Assign) and len(st.targets) == 1 and isinstance(st.targets[0], ast.Name):
+                target, value = st.targets[0].id, st.value
+            elif isinstance(st, ast.AnnAssign) and isinstance(st.target, ast.Name) and st.value is not None:
+                target, value = st.target.id, st.value
+            if target is None:
+                continue
+            mutable = isinstance(value, (ast.Dict, ast.List, ast.Set, ast.DictComp, ast.ListComp, ast.SetComp)) or (
+                isinstance(value, ast.Call) and unparse(value.func).split(".")[-1] in {"dict", "list", "set", "defaultdict", "OrderedDict", "deque", "Counter"}
+            )
+            if mutable and not is_attrs:
+                shared[target] = st
+        if not shared:
+            continue
+        for attr, st in shared.items():
+            n_attrs += 1
+            mangled = {attr, f"_{cls.name.lstrip('_')}{attr}"} if attr.startswith("__") and not attr.endswith("__") else {attr}
+            rebinds, mutations = [], []
+            for c in [cls, *tree.subclasses(cls)]:
+                for m in c.methods.values():
+                    for node in walk_function(m.node):
+                        if isinstance(node, (ast.Assign, ast.AnnAssign)):
+                            tgts = node.targets if isinstance(node, ast.Assign) else [node.target]
+                            for t in tgts:
+                                if isinstance(t, ast.Attribute) and t.attr in mangled and isinstance(t.value, ast.Name) and t.value.id == "self" and getattr(node, "value", None) is not None:
+                                    rebinds.append((m, node))
+                                if isinstance(t, ast.Subscript) and isinstance(t.value, ast.Attribute) and t.value.attr in mangled and isinstance(t.value.value, ast.Name) and t.value.value.id in {"self", "cls"}:
+                                    mutations.append((m, node))
+                        if isinstance(node, ast.AugAssign) and isinstance(node.target, ast.Attribute) and node.target.attr in mangled:
+                            mutations.append((m, node))
+                        if isinstance(node, ast.Delete):
+                            for t in node.targets:
+                                if isinstance(t, ast.Subscript) and isinstance(t.value, ast.Attribute) and t.value.attr in mangled:
+                                    mutations.append((m, node))
+                        if isinstance(node, ast.Call) and isinstance(node.func, ast.Attribute) and node.func.attr in MUTATORS:
+                            recv = node.func.value
+                            if isinstance(recv, ast.Attribute) and recv.attr in mangled and isinstance(recv.value, ast.Name) and recv.value.id in {"self", "cls"}:
+                                mutations.append((m, node))
+            init_rebinds = [r for r in rebinds if r[0].name in {"__init__", "__new__", "__attrs_post_init__"}]
+            key = f"{q}::class-level mutable `{attr}`"
+            if mutations and not init_rebinds:
+                m, node = mutations[0]
+                ctx.violation("R-SHARED", key + "::mutated-through-self", tree.loc(node),
+                              f"{q}: class-level `{attr} = {unparse(getattr(st, 'value', st))[:30]}` is one object shared by every instance, and {m.qual} mutates it with `{unparse(node)[:60]}`"
+                              + ("" if not rebinds else " (it is only re-bound per instance outside the constructor)"),
+                              "creating or re-configuring a second builder / name generator rewrites the state of the first: formulate() depends on what other objects did before")
+            else:
+                ctx.ok("R-SHARED", tree.loc(st), f"{q}: class-level mutable `{attr}` is {'re-bound per instance in the constructor' if init_rebinds else 'never mutated through self/cls'}")
+    # mutable default arguments: one object per function, shared by all calls
+    n_defaults = 0
+    for q, fn in sorted(tree.funcs.items()):
+        if not q.startswith("ampform"):
+            continue
+        a = fn.node.args
+        pos = [*a.posonlyargs, *a.args]
+        pairs = list(zip(pos[len(pos) - len(a.defaults):], a.defaults)) + [(p, d) for p, d in zip(a.kwonlyargs, a.kw_defaults) if d is not None]
+        for param, default in pairs:
+            mutable = isinstance(default, (ast.Dict, ast.List, ast.Set)) or (isinstance(default, ast.Call) and unparse(default.func).split(".")[-1] in {"dict", "list", "set", "defaultdict", "OrderedDict"})
+            if not mutable:
+                continue
+            n_defaults += 1
+            rd = RD(fn.node)
+            bad = None
+            for node in walk_function(fn.node, nested=False):
+                base = None
+                if isinstance(node, ast.Call) and isinstance(node.func, ast.Attribute) and node.func.attr in MUTATORS:
+                    base = node.func.value
+                elif isinstance(node, (ast.Assign, ast.AugAssign, ast.AnnAssign)):
+                    for t in (node.targets if isinstance(node, ast.Assign) else [node.target]):
+                        if isinstance(t, ast.Subscript):
+                            base = t.value
+                        # escaping into object state without a copy
+                        if isinstance(t, ast.Attribute) and isinstance(node, (ast.Assign, ast.AnnAssign)) and isinstance(node.value, ast.Name) and node.value.id == param.arg \
+                                and any(d.kind == "param" for d in rd.reaching(node.value)):
+                            bad = node
+                elif isinstance(node, ast.Return) and isinstance(node.value, ast.Name) and node.value.id == param.arg and any(d.kind == "param" for d in rd.reaching(node.value)):
+                    bad = node
+                if isinstance(base, ast.Name) and base.id == param.arg and any(d.kind == "param" for d in rd.reaching(base)):
+                    bad = node
+            if bad is not None:
+                ctx.violation("R-SHARED", f"{q}::mutable-default `{param.arg}`", tree.loc(bad),
+                              f"{q}: parameter `{param.arg}={unparse(default)}` has a mutable default that is mutated / kept (`{unparse(bad)[:60]}`): the default object is shared by all calls")
+            else:
+                ctx.ok("R-SHARED", tree.loc(fn.node), f"{q}: mutable default `{param.arg}={unparse(default)}` is neither mutated nor kept")
+    ctx.stats["mutable_default_arguments"] = n_defaults
+    ctx.stats["classes_scanned_for_shared_state"] = n_classes
+    ctx.stats["class_level_mutable_attributes"] = n_attrs
+    if n_classes < 60:
+        raise AnalysisError(f"only {n_classes} classes scanned")
+    if n_attrs == 0:
+        ctx.ok("R-SHARED", "src/ampform", f"{n_classes} classes scanned: no class-level attribute is bound to a mutable container (rule armed; positive example in the self-test catalogue)")
+
+
 # --------------------------------------------------------------------------- R-CANON
 
 
@@ -441,6 +550,7 @@ def run(ctx: Check, tree: Tree) -> None:
         "R-EFFECT: formulate resets its scratch state first; every other write reachable from it targets locals, objects under construction, or the scratch state",
         "R-ORDER: no unordered container with hash-seed-sensitive elements reaches an order-preserving sink (tuple/list/loop-with-append/sequence argument of an expression constructor) without sorted()",
         "R-CANON: every mapping field of HelicityModel is converted into a new mapping (sorted where promised)",
+        "R-SHARED: no class-level mutable container of the package is mutated through self/cls without being re-bound per instance in the constructor",
     ]
     ctx.not_decided += ["equality in a fresh process beyond hash-seed effects (e.g. qrules' own determinism)", "thread interleavings (builders are not advertised as thread safe)"]
     ctx.assumptions += [
@@ -455,4 +565,5 @@ def run(ctx: Check, tree: Tree) -> None:
     check_cache(ctx, tree, reach)
     check_effects(ctx, tree, reach)
     check_order(ctx, tree, reach)
+    check_shared_class_state(ctx, tree)
     check_converters(ctx, tree)
